@@ -308,6 +308,7 @@ def mkspec(args, files=None, stdin=None, arrivals=None, sched=None, knobs=None, 
 
 
 POLICIES = ["random", "rtb", "rr", "pct", "first"]
+PREEMPT_SHARE = float(os.environ.get("VERIF_PREEMPT_SHARE", "0.25"))
 
 
 def random_sched(rng, goroutines=None, want_choices=False):
@@ -329,6 +330,9 @@ def random_sched(rng, goroutines=None, want_choices=False):
     elif r < 0.6:
         sc["site_avoid" if rng.chance(0.5) else "site_favor"] = rng.choice(
             ["os.write", "os.read", "stream.go", "channel_writer.go", "aaa_chain_transformer.go", "go@", "os.close", "start"])
+    if rng.chance(PREEMPT_SHARE):
+        # preemption at loop heads (mid-function interleavings), on average once every n loop iterations
+        sc["preempt"] = rng.choice([2, 5, 20, 100, 1000])
     if want_choices:
         sc["want_choices"] = True
     return sc
